@@ -2,7 +2,7 @@
 (* C03 on the model: every grid of W x H over Alphabet goes through the pipeline; at the end *)
 (* the model's own document must satisfy the property-level predicate, and the behaviour is  *)
 (* printed for replay into the real library.                                                *)
-EXTENDS Bridge, Json
+EXTENDS BridgeP, Json
 CONSTANTS W, H, Alphabet
 MCInit == InitWith([1..H -> [1..W -> Alphabet]])
 ModelC03 == Done => C03_OK(ModelEvent)
